@@ -973,14 +973,33 @@ static void sc_cs(SB* s, Toks* k)
 		free(b);
 		st = sbdf_ts_create(0, &ts);
 		sb_printf(s, " ts=%d", st);
-		for (i = 0; i < m && !st; ++i) st = sbdf_ts_add(cs, ts);
+		{
+			int retried = 0;
+			for (i = 0; i < m && !st; ++i)
+			{
+				st = sbdf_ts_add(cs, ts);
+				if (st)
+				{
+					/* C14: a failed addition leaves the slice as it was (i columns, all valid) */
+					int valid = ts->no_columns == i, j;
+					for (j = 0; valid && j < i; ++j) valid = ts->columns[j] == cs;
+					sb_printf(s, ":add=%d:n=%d:valid=%d", st, ts->no_columns, valid);
+					if (valid && !retried) { retried = 1; st = 0; --i; }   /* the caller tries again */
+				}
+			}
+		}
 		if (!st)
 		{
 			int ok = ts->no_columns == m;
 			for (i = 0; i < ts->no_columns; ++i) ok = ok && ts->columns[i] == cs;
 			sb_printf(s, ":%d:%d", ts->no_columns, ok);
+			f_reset(g_f);
+			st = sbdf_ts_write(g_f, ts);
+			b = f_slurp(g_f, &nb);
+			sb_printf(s, " tsw=%d:", st);
+			sb_hexq(s, b, nb);
+			free(b);
 		}
-		else sb_printf(s, ":add=%d", st);
 	}
 	/* the slice owns none of the arrays: accepted and rejected ones are still the caller's */
 	sbdf_ts_destroy(ts);
